@@ -47,9 +47,30 @@ theorem expression_descent_total {α σ : Type} (o : Ops α σ) (lk : Lookup α 
 open Expr in
 /-- nested variable lookups end: the cycle check bounds their depth by the number of variables -/
 theorem expression_lookup_total {α σ : Type} (o : Ops α σ) (env : Env) (elref : Str → Res α)
-    (hel : ∀ v, elref v ≠ .error .outOfFuel) (v : Str) (ck : List Str) (st : σ) :
-    lookup o env elref v ck st ≠ .error .outOfFuel :=
-  lookup_ne_outOfFuel o env elref hel v ck st
+    (hel : ∀ v, elref v ≠ .error .outOfFuel) (base : Nat) (v : Str) (ck : List Str) (st : σ) :
+    lookup o env elref base v ck st ≠ .error .outOfFuel :=
+  lookup_ne_outOfFuel o env elref hel base v ck st
+
+open Expr in
+/-- the nesting guard: an expression whose tokens nest deeper than `MAX_EXPR_DEPTH` (together with the
+    expressions whose variables led to it) is refused before the recursive parser is entered — this is
+    what stands where a stack overflow used to be -/
+theorem expression_nesting_guard {α σ : Type} (o : Ops α σ) (lkB : Nat → Lookup α σ) (elref : Str → Res α)
+    (base : Nat) (ck : List Str) (ts : List (Token α)) (st : σ)
+    (h : maxExprDepth < base + nestingDepth ts) :
+    evaluateAt o lkB elref base ck ts st = .error .depthLimit := by
+  simp only [evaluateAt, h, if_true]
+
+open Expr in
+/-- … and every variable on the way costs a level: the lookups made while evaluating at depth `d` are
+    made at depth `d + 1`, so a chain of variables defined in terms of each other ends after at most
+    `MAX_EXPR_DEPTH` links -/
+theorem expression_lookup_deeper {α σ : Type} (o : Ops α σ) (lkB : Nat → Lookup α σ) (elref : Str → Res α)
+    (base : Nat) (ck : List Str) (ts : List (Token α)) (st : σ)
+    (h : base + nestingDepth ts ≤ maxExprDepth) :
+    evaluateAt o lkB elref base ck ts st = evaluate o (lkB (base + nestingDepth ts + 1)) elref ck ts st := by
+  have hn : ¬ (base + nestingDepth ts > maxExprDepth) := by omega
+  simp only [evaluateAt, if_neg hn]
 
 open Expr in
 /-- every attribute value, condition and list evaluates to a value or an error -/
@@ -148,6 +169,8 @@ end Svgdx.Props.C01
 #print axioms Svgdx.Props.C01.path_instruction_consumes
 #print axioms Svgdx.Props.C01.expression_descent_total
 #print axioms Svgdx.Props.C01.expression_lookup_total
+#print axioms Svgdx.Props.C01.expression_nesting_guard
+#print axioms Svgdx.Props.C01.expression_lookup_deeper
 #print axioms Svgdx.Props.C01.expression_entry_points_total
 #print axioms Svgdx.Props.C01.retry_passes_bounded
 #print axioms Svgdx.Props.C01.panic_sites_reviewed
